@@ -113,16 +113,33 @@ func perKey(evs []h.Entry, key string) []h.Entry {
 }
 
 func c20Case(lk limiterKind, tl []tlItem, end string, onThread bool, bound int) fw.Case {
+	return c20CaseSlow(lk, tl, end, onThread, bound, 0)
+}
+
+// c20CaseSlow: the observer takes `slow` of virtual time per item, so that window boundaries fall
+// while an item is being delivered.
+func c20CaseSlow(lk limiterKind, tl []tlItem, end string, onThread bool, bound int, slow time.Duration) fw.Case {
 	nm := tlName(tl, end)
 	if onThread {
 		nm = "thread: " + nm
+	}
+	if slow > 0 {
+		nm += fmt.Sprintf(" / observer takes %du per item", slow/u)
 	}
 	total := time.Duration(0)
 	for _, it := range tl {
 		total += it.gap
 	}
+	total += time.Duration(len(tl)) * slow
 	return fw.Case{Name: nm, Bound: bound, Opts: vrt.Options{Horizon: 200000, MaxTime: int64(total + 3*lk.win)}, Make: func() fw.Instance {
 		run := &c20run{rec: h.NewRec("out")}
+		if slow > 0 {
+			run.rec.Hook = func(r *h.Rec, idx int, e h.Ev) {
+				if e.K == h.N {
+					vrt.HSleep(int64(slow))
+				}
+			}
+		}
 		return fw.Instance{Body: c20Body(lk, tl, end, onThread, run, ""), Outcome: func() string {
 			var s []string
 			for _, en := range run.rec.Log {
@@ -284,6 +301,11 @@ func init() {
 							c.Explore(c20Case(lk, tl, end, false, 0))
 							if len(tl) <= 3 {
 								c.Explore(c20Case(lk, tl, end, true, bound))
+								for _, slow := range []time.Duration{lk.win / 2, lk.win, lk.win + u} {
+									if slow > 0 {
+										c.Explore(c20CaseSlow(lk, tl, end, true, bound-1, slow))
+									}
+								}
 							}
 						}
 						if len(tl) <= 3 {
